@@ -1011,4 +1011,26 @@ theorem C02_progress_step {p : Par} {s : State} {gab gba : GLink} (h : Cons p s 
   exact retH3_done h hs.live (o p.base x.sn) R T1 IA IB hT ht
     ⟨⟨x, rest, hb, rfl, hxm, hxr⟩, hiv, hnf, hnw, hrb⟩ evs hsm hnow
 
+/-! non-vacuity of `C02_progress_step`: A sends one byte and flushes, the network loses the datagram
+(`shuffle [] []`).  The state is consistent (`cons_side_netRun`), the head has `xmit = 1` and its timer at
+t = 1200 (`rx_rto = 200`), A's next flush is at 1010 ≤ T1 = 1210, B flushes every 10 ms, its queue is
+empty: every hypothesis holds with `R = 1200`, `IA = IB = 10`, `T1 = 1210`. -/
+
+def c02LostPush : List SysC.NetEv := [.fair (.send [0]), .fair .flushA, .shuffle [] []]
+
+example : (∃ gab gba, SysC.Cons ⟨SysC.wedgeA.snd_nxt, SysC.wedgeA.conv, 0, 0, 0⟩
+      (SysC.netRun (Sys.init SysC.wedgeA SysC.wedgeB 0 1000) c02LostPush) gab gba ∧
+      SysC.Side SysC.wedgeA.snd_nxt (SysC.netRun (Sys.init SysC.wedgeA SysC.wedgeB 0 1000) c02LostPush)) ∧
+    (SysC.netRun (Sys.init SysC.wedgeA SysC.wedgeB 0 1000) c02LostPush).ab = [] ∧
+    (SysC.netRun (Sys.init SysC.wedgeA SysC.wedgeB 0 1000) c02LostPush).A.snd_buf.map
+      (fun x => (x.xmit, x.resendts)) = [(1, Sys.clk 1200)] ∧
+    (SysC.netRun (Sys.init SysC.wedgeA SysC.wedgeB 0 1000) c02LostPush).A.interval.toNat = 10 ∧
+    (SysC.netRun (Sys.init SysC.wedgeA SysC.wedgeB 0 1000) c02LostPush).nfA ≤ 1210 ∧
+    (SysC.netRun (Sys.init SysC.wedgeA SysC.wedgeB 0 1000) c02LostPush).B.rcv_queue.length <
+      (SysC.netRun (Sys.init SysC.wedgeA SysC.wedgeB 0 1000) c02LostPush).B.rcv_wnd.toNat ∧
+    SysC.Tm 10 (SysC.netRun (Sys.init SysC.wedgeA SysC.wedgeB 0 1000) c02LostPush) :=
+  ⟨SysC.cons_side_netRun c02LostPush _ [] [] (SysC.cons_init _ _ 0 1000 false false (by decide))
+      (SysC.side_init _ _ 0 1000 false false (by decide)) (by decide),
+   by decide, by decide, by decide, by decide, by decide, ⟨by decide, by decide⟩⟩
+
 end KcpVerif.Props
